@@ -43,7 +43,8 @@ def instantiations(tier, seed):
     skels = F.pl_family(tier, seed, n_quick=15, n_thorough=250)
     for k, sk in enumerate(skels):
         names = F.ALT_NAMES[(k + seed) % len(F.ALT_NAMES)]
-        m = _boolsym(F.rename(F.symbolize(sk), names), 3 if tier == "quick" else 5)
+        heavy = len(pl.compounds(sk)) >= 4 or any(c["t"] in ("XNor", "Xor") and any(ch["t"] != "var" for ch in c["ch"]) for c in pl.compounds(sk))
+        m = _boolsym(F.rename(F.symbolize(sk), names), (2 if heavy else 3) if tier == "quick" else (3 if heavy else 5))
         ids = pl.explicit_ids(m)
         # pre-fix some named compounds by bounds
         if ids and k % 3 != 0:
@@ -53,6 +54,14 @@ def instantiations(tier, seed):
         pool = list(pl.leaves(m)) + ids
         assumed = rng.sample(pool, min(2, len(pool))) if k % 2 == 1 else []
         out.append({"model": m, "assumed": assumed, "warm": k % 3 == 1})
+    # reduce() called directly on the logical connectives' own classes (a subclass may override reduce) with integer leaves that can be
+    # negative next to leaves that can be fixed to true: no pre-fixed compound, no assume step
+    for k, sk in enumerate([F.N("Any", F.j(), F.a(), id="A"), F.N("All", F.N("Any", F.j(), F.a(), F.b(), id="B"), F.c(), id="A"),
+                            F.N("Imply", F.a(), F.N("Any", F.i(), F.b(), id="C"), id="A"), F.N("Xor", F.j(), F.a(), F.b(), id="A"),
+                            F.N("All", F.i(), F.a(), id="A"), F.N("XNor", F.j(), F.a(), id="A"),
+                            F.N("Any", F.N("All", F.i(), F.a(), id="B"), F.N("Any", F.j(), F.b()), id="A")]):
+        m = _boolsym(F.rename(F.symbolize(sk), F.ALT_NAMES[(k + seed) % len(F.ALT_NAMES)]), 3)
+        out.append({"model": m, "assumed": [], "warm": k % 2 == 1})
     base = _boolsym(F.symbolize(F.AL(2, F.a(), F.i(), F.AL(1, F.b(), F.c(), id="B", sign=1), id="A", sign=1)))
     for mu in ("ignore_constants", "allow_fixed"):
         out.append({"kind": "mutant", "mutant": mu, "model": base, "assumed": []})
